@@ -174,7 +174,10 @@ RESIZE_RULE = ('; CONC-resize: 1-4 Computes whose remapping function is blocked 
 PROPS['C02'] = {
     'modules': ['OtterVerif.Props.C02', 'OtterVerif.Props.C15'],
     'engines': [conc('conclin', 'conc-lin', 240, 12000, 20, ['-target', 'cache']), conc('conclin', 'conc-lin', 120, 6000, 20, ['-target', 'table']),
-                conc('concresize', 'conc-resize', 120, 6000, 10)],
+                conc('concresize', 'conc-resize', 120, 6000, 10),
+                # a value returned by Get (also to a caller that only joined the load) is readable by the same goroutine afterwards
+                {'kind': 'unit', 'name': 'concflight', 'hcmd': 'conc-flight', 'dcmd': 'concflight', 'quick': 64, 'thorough': 3000, 'chunk': 8, 'args': [],
+                 'accept': lambda f: 'C02' in f['msg']}],
     'rule': LIN_RULE + RESIZE_RULE, 'trusted': CONC_TRUST + ['Lin.checkKey (Lean executable) is the judge; the in-critical-section stamps come from user callbacks the cache invokes under the bucket lock'],
 }
 PROPS['C15'] = {
